@@ -18,10 +18,16 @@ Clauses of the property and the theorems that carry them
   (c) range: binary [0,1], continuous within [min,max] ..  `range_binary`, `range_binary_closed`, `range_continuous`,
                                                            `range_crossfit`, `unit_bounds_range`, `unit_roundtrip`,
                                                            `unit_roundtrip_clip`
+  (d) what `fit` finds: initial predictions truncated into the requested interval whatever container the caller
+      used, the offset built from the truncated predictions, reporting / diagnostic calls transparent
+                                                           `init_clip_range`, `init_offset`, `truncate_range`,
+                                                           `truncate_collection`, `null_fluctuation_real`,
+                                                           `observers_noop`, `report_after_observers`
 Partial (not carried by a theorem): "vanish to numerical precision" is a statement about IRLS convergence and IEEE
 rounding; the theorems give the exact identity (efficient score = GLM score, row by row), gates H/D measure the size.
 -/
 import ZepidVerif.Model.Tmle
+import ZepidVerif.Model.TmleInit
 import ZepidVerif.Lemmas.Tmle
 import Mathlib.Algebra.Order.Field.Basic
 import Mathlib.Algebra.Order.Field.Rat
@@ -266,6 +272,81 @@ theorem unit_roundtrip_clip (y mini maxi cb : F) (hmm : mini < maxi) (h0 : 0 ≤
   rw [hy, abs_le]
   split_ifs with a b b <;> constructor <;> nlinarith
 
+/-! ### (d) what `fit` finds: truncated initial predictions; reporting and diagnostic calls -/
+
+/-- an entry that went through `probability_bounds` lies in the interval that was asked for -/
+theorem init_clip_range (lo hi q : F) (h : lo ≤ hi) : lo ≤ initClip lo hi q ∧ initClip lo hi q ≤ hi := by
+  simp only [initClip, gt_iff_lt]
+  split_ifs <;> constructor <;> linarith
+
+/-- the offset `QAW = QA1W·A + QA0W·(1−A)` of a row is the *truncated* prediction of the arm the row is in -/
+theorem init_offset (lo hi : F) (r : TRow F) :
+    qa (truncRow lo hi r) = if r.a then initClip lo hi r.q1 else initClip lo hi r.q0 := by
+  cases h : r.a <;> simp [qa, truncRow, ind, h]
+
+/-- a collection stands for its entries 0 and 1: what follows them changes nothing, and a list and a tuple are the
+    same collection (the model has one constructor for both) -/
+theorem truncate_collection (lo hi : F) (rest : List F) (l : List (TRow F)) :
+    truncate (.coll (lo :: hi :: rest)) l = some (l.map (truncRow lo hi)) ∧
+    truncate (.coll (lo :: hi :: rest)) l = truncate (.coll [lo, hi]) l := ⟨rfl, rfl⟩
+
+/-- whatever the outcome model predicted and however the bound was written, after `outcome_model` both initial
+    predictions and the offset of every row lie in the interval the bound denotes -/
+theorem truncate_range (b : QBound F) (l w : List (TRow F)) (lo hi : F) (hI : qInterval b = some (lo, hi))
+    (h : lo ≤ hi) (hw : truncate b l = some w) :
+    ∀ r ∈ w, (lo ≤ r.q1 ∧ r.q1 ≤ hi) ∧ (lo ≤ r.q0 ∧ r.q0 ≤ hi) ∧ (lo ≤ qa r ∧ qa r ≤ hi) := by
+  intro r hr
+  simp only [truncate, hI, Option.some.injEq] at hw
+  subst hw
+  obtain ⟨r0, _, rfl⟩ := List.mem_map.mp hr
+  refine ⟨init_clip_range lo hi _ h, init_clip_range lo hi _ h, ?_⟩
+  rw [init_offset]
+  split_ifs
+  · exact init_clip_range lo hi _ h
+  · exact init_clip_range lo hi _ h
+
+/-- satisfiable, and the third entry is indeed ignored: predictions −1/4 and 5/4 under the bound (1/10, 4/5, 9/10) -/
+example : truncate (.coll [(1/10 : ℚ), 4/5, 9/10]) [⟨true, true, 1, -1/4, 5/4, 1/2, 1/2⟩] =
+    some [⟨true, true, 1, 1/10, 4/5, 1/2, 1/2⟩] := by
+  simp only [truncate, qInterval, truncRow, initClip, List.map]
+  norm_num
+
+/-- reporting and diagnostic calls leave every register alone -/
+theorem observers_noop (compute : F → F → List (TRow F) → Fit F) (s : TState F) (cs : List (Call F))
+    (h : ∀ c ∈ cs, c.isObserver = true) : run compute s cs = s := by
+  induction cs generalizing s with
+  | nil => rfl
+  | cons c cs ih =>
+    have hc : step compute s c = s := by
+      have := h c (List.mem_cons_self ..)
+      cases c <;> simp_all [step, Call.isObserver]
+    simp only [run, List.foldl_cons, hc]
+    exact ih s (fun c' hc' => h c' (List.mem_cons_of_mem _ hc'))
+
+/-- … so the numbers read after `… ; fit ; …` are the ones `fit` computed from the registers as the specification
+    left them, whatever was printed or drawn before and after -/
+theorem report_after_observers (compute : F → F → List (TRow F) → Fit F) (s : TState F) (pre post : List (Call F))
+    (e1 e2 : F) (hpre : ∀ c ∈ pre, c.isObserver = true) (hpost : ∀ c ∈ post, c.isObserver = true) :
+    run compute s (pre ++ [Call.fit e1 e2] ++ post) = { rows := s.rows, reported := some (compute e1 e2 s.rows) } := by
+  have h1 : run compute s pre = s := observers_noop compute s pre hpre
+  simp only [run, List.foldl_append, List.foldl_cons, List.foldl_nil] at h1 ⊢
+  rw [h1]
+  exact observers_noop compute _ post hpost
+
+/-- in particular the reported risk difference / ratio / odds ratio are still the plug-ins of the targeted predictions -/
+theorem plugin_after_observers [Transc F] (σ lg : F → F) (s : TState F) (pre post : List (Call F)) (e1 e2 : F)
+    (hpre : ∀ c ∈ pre, c.isObserver = true) (hpost : ∀ c ∈ post, c.isObserver = true) :
+    ∃ f, (run (fitBinary σ lg) s (pre ++ [Call.fit e1 e2] ++ post)).reported = some f ∧
+      f.rd = rdOf (targets σ lg e1 e2 s.rows) ∧ f.rr = rrOf (targets σ lg e1 e2 s.rows) ∧
+      f.or_ = orOf (targets σ lg e1 e2 s.rows) := by
+  rw [report_after_observers _ s pre post e1 e2 hpre hpost]
+  exact ⟨_, rfl, rfl, rfl, rfl⟩
+
+example : (run (fun (_ _ : ℚ) _ => ⟨[], [], [], 0, 0, 0, 0, 0, 0⟩) ⟨[⟨true, true, 1, 1/2, 1/4, 1/2, 1/2⟩], none⟩
+    ([Call.plotKde true, Call.positivity 3] ++ [Call.fit 0 0] ++ [Call.summary 1])).rows =
+    [⟨true, true, 1, 1/2, 1/4, 1/2, 1/2⟩] := by
+  rw [report_after_observers _ _ _ _ _ _ (by decide) (by decide)]
+
 /-! ### non-vacuity on a small rational data set (σ = lg = identity, so everything is exact) -/
 
 /-! ### instantiation at ℝ: `σ = 1/(1+exp(−x))`, `lg = log ∘ odds` satisfy the abstract hypotheses -/
@@ -295,6 +376,26 @@ theorem expit_logit_real (p : ℝ) (h0 : 0 < p) (h1 : p < 1) : expit (logitT p) 
   have hpos : 0 < p / (1 - p) := div_pos h0 hq
   simp only [expit, logitT, Transc.exp, Transc.log, Nat.cast_one, Real.exp_neg, Real.exp_log hpos]
   field_simp; ring
+
+/-- why the truncation matters: for an interval strictly inside (0,1) the logit of every truncated prediction exists,
+    and a null fluctuation returns the initial predictions (all three of them, the offset included) -/
+theorem null_fluctuation_real (lo hi : ℝ) (r : TRow ℝ) (h0 : 0 < lo) (h : lo ≤ hi) (h1 : hi < 1) :
+    qstar1 expit logitT 0 (truncRow lo hi r) = (truncRow lo hi r).q1 ∧
+    qstar0 expit logitT 0 (truncRow lo hi r) = (truncRow lo hi r).q0 ∧
+    qstarA expit logitT 0 0 (truncRow lo hi r) = qa (truncRow lo hi r) := by
+  have c1 := init_clip_range lo hi r.q1 h
+  have c0 := init_clip_range lo hi r.q0 h
+  have ca : lo ≤ qa (truncRow lo hi r) ∧ qa (truncRow lo hi r) ≤ hi := by
+    rw [init_offset]; split_ifs
+    · exact c1
+    · exact c0
+  refine ⟨?_, ?_, ?_⟩
+  · simp only [qstar1, zero_div, add_zero]
+    exact expit_logit_real _ (by simp only [truncRow]; linarith [c1.1]) (by simp only [truncRow]; linarith [c1.2])
+  · simp only [qstar0, zero_div, sub_zero]
+    exact expit_logit_real _ (by simp only [truncRow]; linarith [c0.1]) (by simp only [truncRow]; linarith [c0.2])
+  · simp only [qstarA, zero_mul, add_zero, zero_add]
+    exact expit_logit_real _ (by linarith [ca.1]) (by linarith [ca.2])
 
 /-- the real-valued TMLE model: range for binary outcomes with no hypothesis left about `σ` -/
 theorem range_binary_real (e1 e2 : ℝ) (l : List (TRow ℝ)) (hne : l ≠ []) :
